@@ -11,6 +11,16 @@ pub fn main() {
     if args.len() >= 3 && args[1] == "--witness" {
         std::process::exit(vk_curves::witness::run(&args[2]));
     }
+    if args.len() >= 3 && args[1] == "--scenario" {
+        // level-2 scenarios on the real curves (replay_real only: they need the real blst)
+        std::process::exit(match args[2].as_str() {
+            "msm-short-scalars" => vk_curves::c12::level2::scenario_short_scalars(),
+            other => {
+                println!("unknown scenario {other}");
+                4
+            }
+        });
+    }
     if args.len() < 2 {
         eprintln!("usage: replay <harness> <hex,hex,...> | --list");
         std::process::exit(2);
